@@ -51,8 +51,19 @@ def execute(case):
                 return {"ok": False, "failures": [{"sig": {"kind": "cache-create-raises", "exc": type(e).__name__}, "detail": f"create_cache=True raises {type(e).__name__}: {e}"}], "outcome": "cache-create-raises"}
         snaps = {}
         for rpc in rpcs(L):
-            tree = prod.open(records_per_chunk=rpc)
-            snaps[rpc], chunks = snap_and_chunks(tree, spec)
+            try:
+                tree = prod.open(records_per_chunk=rpc)
+                # a partial read first: what a later full read returns must not depend on rpc either
+                for im in spec["images"]:
+                    tree[f"imagery/{harness.group_name(im['pol'], im['scan'])}/data"].isel(rows=0).values
+                snaps[rpc], chunks = snap_and_chunks(tree, spec)
+                again, _ = snap_and_chunks(tree, spec)
+            except Exception as e:
+                fails.append({"sig": {"kind": "open-or-load-raises", "exc": type(e).__name__}, "detail": f"{level} L={L} rpc={rpc}: {type(e).__name__}: {str(e)[:100]}"})
+                snaps[rpc] = {"error": ("raises", type(e).__name__)}
+                continue
+            if again != snaps[rpc]:
+                fails.append({"sig": {"kind": "second-load-differs"}, "detail": f"L={L} rpc={rpc}: loading the same tree twice gives different values"})
             want = expected_chunks(spec, rpc)
             if chunks != want:
                 fails.append({"sig": {"kind": "preferred-chunks"}, "detail": f"L={L} rpc={rpc}: advertised {chunks} != {want}"})
